@@ -53,6 +53,14 @@ def handle (op : String) (j : Json) : Except String Json := do
     let st := Pipe.subscribeRun shared n fuel
     let evs := (subscribeEvents shared).map (fun e => match e with | .assign => Json.str "assign" | .emit => Json.str "emit")
     pure (Json.mkObj [("pulls", .num (JsonNumber.fromNat st.pulls)), ("stopped", .bool st.flag), ("events", Json.arr evs.toArray)])
+  | "drain_q" =>
+    -- queue = [producer action, other source's action]; answer: did the other source run, and after how many produced elements
+    let kind ← getStr j "producer"
+    let fuel ← getNat j "fuel"
+    let prog : Prog := if kind == "loop" then .loop else .step fuel
+    let evs := drainQ fuel [prog, .other]
+    let before := (evs.takeWhile (· != QEv.otherRan)).length
+    pure (Json.mkObj [("otherRan", .bool (evs.contains QEv.otherRan)), ("producedBefore", .num (JsonNumber.fromNat before))])
   | "from_iter" =>
     let xs ← getVals j "xs"
     let k := (j.getObjValAs? Nat "k").toOption
